@@ -225,6 +225,7 @@ def run(run):
     from .c05 import _mut_method
     for ci in (0, 1, 3):
         rep.finish(rep.batch(section_feedback(rep, ci)), PROP)
+    rep.selfcheck(PROP, [{'check': 'feedback', 'point': {}, 'params': {'cfg': ci}} for ci in (0, 1, 3)])
     for name, spec, ci in FEEDBACK_CANARIES:
         try:
             obls = section_feedback(rep, ci, _mut_method(spec))
